@@ -105,14 +105,12 @@ func g5Data(shape string, size int, seed int64) []byte {
 		}
 		return b[:size]
 	}
-	for _, s := range gen.Shapes {
-		if s.Name == shape {
-			b := s.F(r, size)
-			if len(b) > size { // UTF8 generator may overshoot by a partial rune
-				b = b[:size]
-			}
-			return b
+	if s := gen.ShapeByName(shape); s != nil {
+		b := s.F(r, size)
+		if len(b) > size { // UTF8 generator may overshoot by a partial rune
+			b = b[:size]
 		}
+		return b
 	}
 	return gen.Random(r, size)
 }
@@ -540,6 +538,21 @@ func g5Thresholds(r *rand.Rand, limit int, emit func(c g5Cfg, fam string)) {
 	}
 }
 
+// text in which every punctuation character touches words, through TEXT alone and through the level chains that
+// contain TEXT: a symmetric change of the word-delimiter classification alters the dynamic dictionary
+func g5TextPunct(r *rand.Rand, emit func(c g5Cfg, fam string)) {
+	k := 0
+	for _, tf := range []string{"TEXT", "TEXT+UTF+PACK+MM+LZX", "TEXT+UTF+BWT+RANK+ZRLT", "LZP+TEXT+UTF+BWT+LZP", "EXE+RLT+TEXT+UTF+DNA"} {
+		for _, en := range []string{"NONE", "HUFFMAN", "ANS0", "FPAQ"} {
+			for _, size := range []int{3000, 20000, 70000} {
+				emit(g5Cfg{Tf: tf, En: en, Bs: 65536, Ck: []uint{0, 32, 64}[k%3], Hl: false, Fs: k%2 == 0, Shape: "textpunct",
+					Size: size, DS: r.Int63n(1 << 40)}, "text-punct")
+				k++
+			}
+		}
+	}
+}
+
 var g5EdgeSizes = []int{0, 1, 2, 15, 16, 17, 100, 1023, 1024, 1025, 4095, 4096, 4097, 8192}
 
 func g5Shapes(r *rand.Rand, emit func(c g5Cfg, fam string)) {
@@ -620,6 +633,7 @@ func init() {
 			e := func(c g5Cfg, fam string) { emit(c.op(), "family:"+fam) }
 			g5Directed(r, e)
 			g5Shapes(r, e)
+			g5TextPunct(r, e)
 			if tier == "thorough" {
 				g5Thresholds(r, 1<<23, e)
 			} else {
